@@ -348,7 +348,10 @@ def run(ctx):
             if is_rev:
                 rows += synth_rows(r["row"], rng)[:6]
             book.append({"kind": "book", "file": r["file"], "hw": r["hw"], "idx": r["idx"], "rev": is_rev,
-                         "rule": r["row"], "prefix": r["prefix"], "ic": r["ic"],
+                         "rule": r["row"], "prefix": r["prefix"],
+                         # %ignore_case lives in the patching rule only: the reverse forms come from
+                         # the ordering / ACL compilers, which never set the flag
+                         "ic": r["ic"] and not is_rev,
                          "fkey": FKEY, "rows": rows, "src": "shipped-reverse" if is_rev else "shipped"})
     cases = exh + rev + book
     for c in cases:
@@ -359,9 +362,10 @@ def run(ctx):
     outs = core.run_impl_sharded("c07_runner.py", payload, wrap=lambda cs: {"op": "run", "cases": cs}, timeout=900)
 
     # ---- Coq evaluates agree / holds ----
+    used = sorted({c["rows"] for c in cases if isinstance(c["rows"], tuple)})
     extra_defs = "\n".join(
-        f"Definition rows_{an}_{mw} : list string := {clist(cstr(r) for r in rows_over(ALPHA[an], mw))}."
-        for an in ALPHA for mw in (3, 4, 5))
+        f"Definition {name}_{mw} : list string := {clist(cstr(r) for r in rows_over(ALPHA[name.split('_')[1]], mw))}."
+        for name, mw in used)
     terms, live = [], []
     kinds_differ = []
     for i, (c, o) in enumerate(zip(cases, outs)):
